@@ -30,7 +30,9 @@ THEOREMS = [P + t for t in (
     "tempo_retry_after_fault", "mft_retry_after_fault",
     "tempo_history_canonical", "mft_history_canonical",
     "pt_idempotent", "pt_compute_twice", "gibbs_idempotent",
-    "tebd_split_eq_single", "restart_eq_uninterrupted_partial", "restart_double_precontrol")]
+    "tebd_split_eq_single", "tebd_getters_pure",
+    "restart_eq_uninterrupted_partial", "restart_double_precontrol")]
+THEOREMS.append("OQuPyVerif.Histories.tracesAlwaysFresh_true")
 
 KEY_RESTART = "restart:PtTebd:pre-control-at-restart-step"
 TOL = 1e-10
@@ -38,6 +40,14 @@ TOL = 1e-10
 
 class Fault(Exception):
     """the transient failure injected into a user callable"""
+
+
+class Abort(BaseException):
+    """the same, but not derived from Exception (like KeyboardInterrupt or a user's abort
+    class): the property does not restrict what a user-supplied function raises"""
+
+
+FAULTS = (Fault, Abort)
 
 
 # ---------------------------------------------------------------------------
@@ -52,8 +62,9 @@ def dec_sum(s_l, d_l, m):
 class Probe:
     """shared state of the wrappers around the user callables of one object"""
 
-    def __init__(self, at=None):
+    def __init__(self, at=None, base=False):
         self.at = at            # raw call index that raises (once)
+        self.base = base        # raise a BaseException that is not an Exception
         self.raw = 0            # raw user-function calls so far (armed only)
         self.armed = False
         self.trace = []         # micro-level invocations: (callable id, step argument)
@@ -66,7 +77,8 @@ class Probe:
                 self.raw += 1
                 if k == self.at:
                     self.fired_inv = len(self.trace) - 1
-                    raise Fault("transient failure of user callable (raw call %d)" % k)
+                    raise (Abort if self.base else Fault)(
+                        "transient failure of user callable (raw call %d)" % k)
             return f(*a)
         return g
 
@@ -150,9 +162,9 @@ def same_dynamics(a, b, tol=TOL):
     return True
 
 
-def run_history(api, s, d, ops, at=None, variant=0):
+def run_history(api, s, d, ops, at=None, variant=0, base=False):
     """ops: list of ('c', end_time) | ('g',).  Returns the observable record."""
-    probe = Probe(at)
+    probe = Probe(at, base)
     obj = MAKERS[api](s, d, probe, variant)
     oks, internal = "", None
     dyn_ids = set()
@@ -166,7 +178,7 @@ def run_history(api, s, d, ops, at=None, variant=0):
             dyn = obj.compute(o[1], progress_type="silent")
             dyn_ids.add(id(dyn))
             oks += "1"
-        except Fault:
+        except FAULTS:
             oks += "0"
         except Exception as e:                      # noqa: BLE001 (internal error after a fault)
             oks += "x"
@@ -189,7 +201,7 @@ def single_call(api, s, d, target, variant=0):
 
 def hist_line(api, s, d, faults, ref, targets):
     return "hist %s %s %s %s %s %s" % (api, rat(s), rat(d),
-                                       ",".join(str(j) for j in faults) if faults else "-",
+                                       ",".join(faults) if faults else "-",
                                        rat(ref), " ".join(rat(t) for t in targets))
 
 
@@ -358,13 +370,40 @@ def tebd_results(obj, res):
             "dm1": [np.array(x) for x in res["dynamics"][1].states]}
 
 
-def run_tebd(pre, post, targets):
+def run_tebd(pre, post, ops):
+    """ops: end_step integers (compute) and the read-only getters 'd' (get_current_density_matrix),
+    'r' (get_results), 'm' (get_augmented_mps)"""
     with TebdLog():
         obj = make_tebd(pre, post)
-        res = None
-        for t in targets:
-            res = obj.compute(t, progress_type="silent")
+        k = 0
+        for o in ops:
+            if o == "d":
+                obj.get_current_density_matrix(k % 2)
+                k += 1
+            elif o == "r":
+                obj.get_results()
+            elif o == "m":
+                obj.get_augmented_mps()
+            else:
+                obj.compute(int(o), progress_type="silent")
+        res = obj.get_results()
         return {"step": obj.step, "chain": list(obj._c14_log), "res": tebd_results(obj, res)}
+
+
+def tebd_targets(ops):
+    return [int(o) for o in ops if o not in ("d", "r", "m")]
+
+
+def with_getters(rng, ts, p=0.6):
+    """insert read-only getters after compute calls"""
+    ops = []
+    for t in ts:
+        ops.append(t)
+        q = p
+        while rng.random() < q:
+            ops.append(rng.choice("ddrm"))
+            q = 0.35
+    return ops
 
 
 def same_tebd(a, b, tol=1e-9, skip=0):
@@ -480,7 +519,8 @@ def correspondence(res, tier, rng):
             idx = list(range(nraw))
             if variant == 2:                           # quadrature: many calls, sample them
                 idx = sorted(rng.sample(idx, min(len(idx), 24)))
-            for r in idx:
+            kinds = [(r, b) for r in idx for b in ((False, True) if api == "mft" else (r % 2 == 1,))]
+            for r, base in kinds:
                 shape = r % 3
                 if shape == 0:
                     ops = [("c", target), ("c", target)]
@@ -488,7 +528,7 @@ def correspondence(res, tier, rng):
                     ops = [("c", target), ("g",), ("c", target), ("c", target)]
                 else:                                  # failing call with a nearer target first
                     ops = [("c", dec_sum(s_l, d_l, max(1, m - 1))), ("c", target), ("c", target)]
-                rec = run_history(api, s, d, ops, r, variant)
+                rec = run_history(api, s, d, ops, r, variant, base)
                 if rec["fired_inv"] is None:
                     continue
                 if rec["internal"] is not None:
@@ -499,11 +539,13 @@ def correspondence(res, tier, rng):
                     continue
                 targets = [o[1] for o in ops if o[0] == "c"]
                 same = same_dynamics(rec["dyn"], ref["dyn"]) and rec["step"] == ref["step"]
-                add(hist_line(api, s, d, [rec["fired_inv"]], target, targets),
+                add(hist_line(api, s, d, ["%d%s" % (rec["fired_inv"], "b" if base else "")],
+                              target, targets),
                     hist_expect(rec, same),
                     {"kind": "fault", "api": api, "start": s, "dt": d, "ops": ops,
-                     "raw_index": r, "variant": variant})
-                res.count("fault:%s:callable%d" % (api, rec["trace"][rec["fired_inv"]][0]))
+                     "raw_index": r, "variant": variant, "base_exception": base})
+                res.count("fault:%s:callable%d:%s" % (api, rec["trace"][rec["fired_inv"]][0],
+                                                      "BaseException" if base else "Exception"))
 
     # (c) PT-TEMPO histories
     pt_hist = ["".join(p) for L in (1, 2, 3) for p in itertools.product("cg", repeat=L)]
@@ -542,19 +584,23 @@ def correspondence(res, tier, rng):
     if tier == "quick":
         tseqs = [q for i, q in enumerate(tseqs) if i % 3 == 0]
     tseqs += [[rng.randrange(5) for _ in range(3)] for _ in range(4 if tier == "quick" else 40)]
-    for i, ts in enumerate(tseqs):
+    # ... every second one with read-only getters between the compute calls, plus fixed shapes
+    jobs = [(ts, with_getters(rng, ts) if i % 2 else list(ts)) for i, ts in enumerate(tseqs)]
+    jobs += [(ts, ops) for ts, ops in (([2, 4], [2, "d", 4]), ([0, 3], [0, "d", "d", 3]),
+                                       ([2, 4, 4], [2, "r", "m", 4, "d", 4]),
+                                       ([1, 3, 4], [1, "d", 3, "d", "r", 4]))]
+    for i, (ts, ops) in enumerate(jobs):
         pre, post = ctrl_cfgs[i % len(ctrl_cfgs)]
-        rec = run_tebd(pre, post, ts)
+        rec = run_tebd(pre, post, ops)
+        single = run_tebd(pre, post, [max(max(ts), 0)])
+        same = same_tebd(rec["res"], single["res"], tol=1e-8) and rec["chain"] == single["chain"] \
+            and rec["step"] == single["step"]
         add("tebd 0 %s %s %s" % (",".join(map(str, pre)) or "-", ",".join(map(str, post)) or "-",
-                                 ",".join(map(str, ts))),
-            "%d;%s;%s" % (rec["step"], " ".join(rec["chain"]),
-                          " ".join(str(k) for k in rec["res"]["steps"])),
-            {"kind": "tebd", "pre": pre, "post": post, "targets": ts})
-        single = run_tebd(pre, post, [max(ts)])
-        if not same_tebd(rec["res"], single["res"]):
-            res.disagree("PtTebd history differs from the single call with the largest target",
-                         {"pre": pre, "post": post, "targets": ts})
-        res.count("tebd:len%d" % len(ts))
+                                 ",".join(map(str, ops))),
+            "%d;%s;%s;%d" % (rec["step"], " ".join(rec["chain"]),
+                             " ".join(str(k) for k in rec["res"]["steps"]), 1 if same else 0),
+            {"kind": "tebd", "pre": pre, "post": post, "ops": ops})
+        res.count("tebd:%s:len%d" % ("getters" if len(ops) != len(ts) else "plain", len(ts)))
     restarts = [((), (), 2, 4), ((1,), (2,), 2, 4), ((2,), (), 2, 4), ((0,), (1,), 1, 3),
                 ((1,), (1,), 1, 3), ((), (2,), 2, 2), ((3,), (0,), 3, 4)]
     if tier != "quick":
@@ -607,7 +653,7 @@ def restart_payload(pre, post, m, n, rec):
 # spec-level oracles on the real code
 # ---------------------------------------------------------------------------
 
-def oracle_retry(res, api, s_l, d_l, m, variant, indices=None):
+def oracle_retry(res, api, s_l, d_l, m, variant, indices=None, base=False):
     """a transient failure of a user callable; the repeated call must fail again or give the
     no-failure dynamics"""
     s, d = float(s_l), float(d_l)
@@ -616,7 +662,7 @@ def oracle_retry(res, api, s_l, d_l, m, variant, indices=None):
     found = 0
     # late steps first: beyond the memory cut-off the damage is silent
     for r in (indices if indices is not None else reversed(range(ref["raw"]))):
-        rec = run_history(api, s, d, [("c", target), ("c", target)], r, variant)
+        rec = run_history(api, s, d, [("c", target), ("c", target)], r, variant, base)
         if rec["fired_inv"] is None or rec["oks"][:1] != "0":
             continue
         cid = rec["trace"][rec["fired_inv"]][0]
@@ -628,8 +674,10 @@ def oracle_retry(res, api, s_l, d_l, m, variant, indices=None):
             what = {("tempo", 0): "system-propagators",
                     ("mft", 0): "field_eom-derivative", ("mft", 1): "system-propagators",
                     ("mft", 2): "field_eom-after-network-update"}[(api, cid)]
-            res.fail("retry:%s:%s" % (name, what),
+            res.fail("retry:%s:%s%s" % (name, what, ":BaseException" if base else ""),
                      {"api": name, "start_time": s, "dt": d, "end_time": target, "variant": variant,
+                      "raised_class": "a BaseException subclass that is not an Exception "
+                                      "(like KeyboardInterrupt)" if base else "an Exception subclass",
                       "raw_user_call_index_that_raises_once": r,
                       "failed_in": what, "step_argument": rec["trace"][rec["fired_inv"]][1],
                       "retry_outcome": rec["internal"] or "returned",
@@ -702,12 +750,42 @@ def oracle_restart(res, pre, post, m, n):
     return 0
 
 
+def oracle_getters(res, pre, post, ops):
+    """read-only getters between compute calls must not change what is recorded"""
+    rec = run_tebd(pre, post, ops)
+    single = run_tebd(pre, post, [max(tebd_targets(ops))])
+    if not (same_tebd(rec["res"], single["res"], tol=1e-8) and rec["step"] == single["step"]):
+        used = sorted(set(o for o in ops if o in ("d", "r", "m")))
+        name = {"d": "get_current_density_matrix", "r": "get_results", "m": "get_augmented_mps"}
+        a, b = rec["res"], single["res"]
+        bad = [k for k, (x, y) in enumerate(zip(a["norm"], b["norm"])) if abs(x - y) > 1e-8] \
+            if a["steps"] == b["steps"] else "different steps recorded"
+        res.fail("getter:PtTebd:%s-between-computes" % "+".join(name[u] for u in used),
+                 {"api": "PtTebd", "pre_controls_at_steps": list(pre),
+                  "post_controls_at_steps": list(post), "calls": [str(o) for o in ops],
+                  "how": "PtTebd: calls in order (integer = compute(end_step), d = "
+                         "get_current_density_matrix(site), r = get_results(), m = "
+                         "get_augmented_mps()); compare get_results() with one compute(%d) on a "
+                         "fresh object" % max(tebd_targets(ops)),
+                  "steps_recorded": a["steps"], "rows_with_wrong_norm": bad,
+                  "norm_history": [repr(x) for x in a["norm"]],
+                  "norm_single_call": [repr(x) for x in b["norm"]]})
+        return 1
+    return 0
+
+
 def search(res, rng=None):
     """Spec-level oracles on the real code (used when a proof/tie broke)."""
-    # retry after a transient failure
+    # retry after a transient failure, for both kinds of exception class
     for api in ("tempo", "mft"):
-        oracle_retry(res, api, "0.0", "0.1", 5, 0)
+        for base in (False, True):
+            oracle_retry(res, api, "0.0", "0.1", 5, 0, base=base)
         oracle_retry(res, api, "0.5", "0.2", 3, 1 if api == "tempo" else 0)
+    # read-only getters between compute calls
+    for (pre, post, ops) in [((), (), [2, "d", 4]), ((1,), (2,), [0, "d", 3]),
+                             ((), (), [2, "r", 4]), ((), (), [2, "m", 4]),
+                             ((0,), (1,), [1, "d", "r", 2, "m", "d", 4])]:
+        oracle_getters(res, pre, post, ops)
     # idempotence
     for n in (2, 4):
         for h in ("cc", "cgc", "gcg", "gg", "ccg"):
@@ -721,7 +799,7 @@ def search(res, rng=None):
             oracle_split(res, api, "0.0", "0.1", ms)
     for (pre, post, ts) in [((1,), (2,), [2, 1, 4]), ((0,), (0,), [3, 3]), ((), (), [1, 2, 3])]:
         a, b = run_tebd(pre, post, ts), run_tebd(pre, post, [max(ts)])
-        if not same_tebd(a["res"], b["res"]):
+        if not same_tebd(a["res"], b["res"], tol=1e-8):
             res.fail("split:PtTebd targets=%s" % ts, {"pre": pre, "post": post, "targets": ts})
     # restart
     for (pre, post, m, n) in [((), (), 2, 4), ((1,), (2,), 2, 4), ((2,), (), 2, 4), ((1,), (), 1, 3)]:
@@ -737,7 +815,8 @@ def replay_case(res, payload):
         s, d, target = fi["start_time"], fi["dt"], fi["end_time"]
         r = fi["raw_user_call_index_that_raises_once"]
         ref = single_call(api, s, d, target, fi.get("variant", 0))
-        rec = run_history(api, s, d, [("c", target), ("c", target)], r, fi.get("variant", 0))
+        rec = run_history(api, s, d, [("c", target), ("c", target)], r, fi.get("variant", 0),
+                          key.endswith(":BaseException"))
         if rec["oks"][:1] == "0" and rec["oks"][1:] != "0" and not (
                 rec["oks"][1:] == "1" and same_dynamics(rec["dyn"], ref["dyn"])):
             res.fail(key, fi)
@@ -747,6 +826,10 @@ def replay_case(res, payload):
         return bool(oracle_pt(res, fi["num_steps"], fi["history"]))
     if key.startswith("idempotent:GibbsTempo"):
         return bool(oracle_gibbs(res, fi["n_steps"], fi["compute_calls"]))
+    if key.startswith("getter:"):
+        return bool(oracle_getters(res, tuple(fi["pre_controls_at_steps"]),
+                                   tuple(fi["post_controls_at_steps"]),
+                                   [o if o in ("d", "r", "m") else int(o) for o in fi["calls"]]))
     if key.startswith("restart:"):
         return bool(oracle_restart(res, tuple(fi["pre_controls_at_steps"]),
                                    tuple(fi["post_controls_at_steps"]),
@@ -762,16 +845,22 @@ def run(tier, seed, replay):
         "Hamiltonian/rates/field equation wrapped by counters): every target sequence over a "
         "4-step grid up to length 2 (quick) / 3 (thorough), sampled longer ones, targets as "
         "literals / computed / off-grid / before start, interleaved get_dynamics; a transient "
-        "fault at EVERY raw call index of the user callables with three retry shapes; PtTempo "
+        "fault at EVERY raw call index of the user callables with three retry shapes, raised as "
+        "an Exception subclass and as a BaseException subclass that is not an Exception; PtTempo "
         "every compute/get history up to length 3 + sampled; GibbsTempo 1-3 computes; PtTebd "
-        "target sequences x control layouts, restarts from the exported chain state.  Compared "
+        "target sequences x control layouts with the read-only getters get_current_density_matrix / "
+        "get_results / get_augmented_mps between the compute calls, restarts from the exported "
+        "chain state.  Compared "
         "exactly with the Lean history models: call outcomes, backend step, number and trace "
         "(callable id, step argument) of user-callable invocations, time lists (bit-exact), "
         "applied-operation logs; 'equals the single-call result' as a flag (states to 1e-10). "
         "Non-trivial = takes at least one step; distinct = distinct protocol line.")
     res.assumptions = [
-        "a user callable's failure is an exception raised by the callable (not a crash of the "
-        "process); it may happen at any of its invocations, any number of times",
+        "a user callable's failure is an exception of ANY class (Exception or other BaseException) "
+        "raised by the callable (not a crash of the process); it may happen at any of its "
+        "invocations, any number of times",
+        "PtTebdBackend.compute_traces: a control-flow path that returns without recomputing is "
+        "taken whenever traces are still present (worst case; pinned by the correspondence)",
         "the real functions are deterministic: equal abstract states (step counter, log of "
         "network updates with their step arguments and user-callable inputs, recorded results) "
         "mean equal numbers",
